@@ -168,8 +168,8 @@ def analyse_sinks(chk, prog, cfg):
                 safe = comp is not None and desc_contains(comp, lambda y: y[0] == "call" and y[1].endswith("trim_start_matches"))
                 chk.ob("R2.no_reroot", fn, f"{sname}: Path::join component has its leading slashes trimmed", safe,
                        "Path::join with a component that may start with '/' replaces the directory", where=b.where(blk), cfg=cfg)
-    chk.floor(f"file-system sinks in handler modules [{cfg}]", n_sinks, 7 if cfg == "A" else 6)
-    chk.floor(f"request-derived sinks [{cfg}]", n_tainted, 5 if cfg == "A" else 5)
+    chk.floor(f"file-system sinks in handler modules [{cfg}]", n_sinks, 3)
+    chk.floor(f"request-derived sinks [{cfg}]", n_tainted, 2)
     # format-built paths: directory first
     tfp = prog.bodies.get("humphrey::route::try_find_path")
     if tfp:
